@@ -531,9 +531,10 @@ func runC18(p *Plan, res *Result) {
 					if strings.HasSuffix(f, "_id") && v != nil {
 						if m, ok := mapping[fmt.Sprint(v)]; ok {
 							want = canon(m)
-						} else if !subset {
-							// the relation points to a document that is not in the file (it was deleted): there is
-							// nothing to relate to after the import
+						} else {
+							// the relation points to a document that is not in the file although its collection is
+							// (every relation of the compared collections stays within them): it was deleted, there
+							// is nothing to relate to after the import
 							want = "null"
 						}
 					}
